@@ -57,6 +57,8 @@ pub struct Outcome {
     pub flips_performed: Option<usize>,
     pub used_heuristic: bool,
     pub attempts: Option<usize>,
+    /// construction statistics: (inserted, skipped_duplicate, skipped_degeneracy, skip sample uuids)
+    pub cstats: Option<(usize, usize, usize, Vec<u128>)>,
     pub ticks: u64,
     pub fired: Vec<(String, u64)>,
     pub counts: Vec<(String, u64)>,
@@ -75,6 +77,7 @@ impl Outcome {
             flips_performed: None,
             used_heuristic: false,
             attempts: None,
+            cstats: None,
             ticks: 0,
             fired: Vec::new(),
             counts: Vec::new(),
@@ -439,6 +442,14 @@ fn construct_inner<K: SimKernel<D>, const D: usize>(op: &Op) -> Built<K, D> {
                     Ok(dt) => Built { dt: Some(dt), out: Outcome::new(OutKind::Ok, "built", String::new()), stats: None },
                     Err(e) => Built { dt: None, out: Outcome::new(OutKind::Err, &variant_of(&format!("{e:?}")), trunc(e.to_string())), stats: None },
                 },
+                "builder" => match delaunay::core::builder::DelaunayTriangulationBuilder::from_vertices(&vs)
+                    .topology_guarantee(tgv)
+                    .construction_options(opts_from(opts))
+                    .build_with_kernel::<K, V>(&kernel)
+                {
+                    Ok(dt) => Built { dt: Some(dt), out: Outcome::new(OutKind::Ok, "built", String::new()), stats: None },
+                    Err(e) => Built { dt: None, out: Outcome::new(OutKind::Err, &variant_of(&format!("{e:?}")), trunc(e.to_string())), stats: None },
+                },
                 "guarantee" => match Dt::<K, D>::with_topology_guarantee(&kernel, &vs, tgv) {
                     Ok(dt) => Built { dt: Some(dt), out: Outcome::new(OutKind::Ok, "built", String::new()), stats: None },
                     Err(e) => Built { dt: None, out: Outcome::new(OutKind::Err, &variant_of(&format!("{e:?}")), trunc(e.to_string())), stats: None },
@@ -464,6 +475,14 @@ pub fn construct<K: SimKernel<D>, const D: usize>(plan: &Plan, op: &Op) -> Built
     match slot {
         Some(mut b) => {
             b.out = out;
+            if let Some(st) = &b.stats {
+                b.out.cstats = Some((
+                    st.inserted,
+                    st.skipped_duplicate,
+                    st.skipped_degeneracy,
+                    st.skip_samples.iter().map(|x| x.uuid.as_u128()).collect(),
+                ));
+            }
             b
         }
         None => Built { dt: None, out, stats: None },
